@@ -1,4 +1,6 @@
 """C15 — consistent hashing: deterministic, member-only, minimally disruptive."""
+import os
+
 import vlib
 from runner import Property, ExecError
 from vlib import cz, clist
@@ -16,6 +18,24 @@ AMBIGUOUS = [S("1"), S("11"), S("12"), S("2"), S("node1"), S("node11"), S("node1
 CLEAN = [S("alpha"), S("beta"), S("gamma"), S("delta"), S("10.0.0.1:6379."), S("10.0.0.2:6379."),
          S("cache-a"), S("cache-b"), S("x/y"), S("z_"), I(3), I(5), I(7), S("7"), ST("7"), ST("alpha"),
          PST("beta"), I64(5)]
+
+# the single-key API of kv.Store (harness/cmd/c15/script.go kvOps), by the redis type of the key it is run on
+KV_OPS = {
+    "s": ["decr", "decrby", "eval", "exists", "expire", "expireat", "get", "getset", "incr", "incrby", "persist",
+          "set", "setex", "setnx", "setnxex", "ttl"],
+    "h": ["hdel", "hexists", "hget", "hgetall", "hincrby", "hkeys", "hlen", "hmget", "hset", "hsetnx", "hmset", "hvals"],
+    "l": ["llen", "lindex", "lpop", "lpush", "lrange", "lrem", "rpush"],
+    "p": ["pfadd", "pfcount"],
+    "e": ["sadd", "scard", "sismember", "smembers", "spop", "srandmember", "srem", "sscan"],
+    "z": ["zadd", "zaddfloat", "zadds", "zcard", "zcount", "zincrby", "zrank", "zrange", "zrangews", "zrangebs",
+          "zrangebsl", "zrem", "zremrank", "zremscore", "zrevrange", "zrevbs", "zrevbsl", "zrevrank", "zscore"],
+}
+CACHE_OPS = ["get", "set", "setex", "take", "takemiss", "takex", "isnf"]
+CLUSTER_WEIGHTS = [100, 100, 100, 50, 10, 1, 0, 150]
+# a redis client's circuit breaker (one per address) lets everything through while it has seen fewer than
+# 5 failures more than 1.5 x successes: scripts keep the injected failures per server below that
+FAIL_BUDGET = 3
+OVERLAY = {"core/stores/cache/zz_verif_c15.go": os.path.join(vlib.HARNESS, "overlay", "cache", "zz_verif_c15.go")}
 
 REPLICAS = [0, -3, 1, 2, 5, 10, 11, 50, 99, 100, 101, 150, 1000]
 WEIGHTS = [0, 1, 5, 10, 11, 50, 99, 100, 150, -5]
@@ -76,7 +96,7 @@ class C15(Property):
         return c15consts.regen()
 
     def prepare(self, ctx):
-        ok, res = vlib.go_build("c15")
+        ok, res = vlib.go_build("c15", overlay=OVERLAY)
         self.bin = res if ok else None
         return ok, ("" if ok else res)
 
@@ -104,7 +124,7 @@ class C15(Property):
             self._cluster("cache", [100, 1, 0, 50], ["k%d" % i for i in range(24)]),
             self._cluster("kv", [100], ["a", "b", "c"]),
             self._cluster("kv", [10, 100, 100], ["k%d" % i for i in range(24)]),
-        ]
+        ] + self._script_corpus()
 
     def _ring_corpus(self):
         P = [S("x"), S("key2"), S("key60"), S("key80"), S("key157"), I(42)] + [S("key%d" % i) for i in range(20)]
@@ -172,7 +192,144 @@ class C15(Property):
                 ws[0] = 100
             cases.append(self._cluster(("cache", "kv")[j % 2], ws,
                                        ["k%d" % rng.randrange(10 ** 6) for _ in range(24)]))
+        for j in range(max(12, n // 4)):
+            cases.append(self._gen_script(rng))
         return cases
+
+    # ---- cluster scripts (harness/cmd/c15/script.go) ------------------------------------------
+    def _script(self, ports, insts, skeys, sops):
+        return {"kind": "script", "ports": ports, "insts": insts, "skeys": skeys, "sops": sops,
+                "hash": "murmur", "mod": 0, "r": 0, "nodes": [], "ops": [], "probes": []}
+
+    def _kv_keys(self, i, tag, per_type=1):
+        return [{"inst": i, "k": "%s%d:%s%d" % (t, i, tag, j)} for t in "shlpez" for j in range(per_type)]
+
+    def _script_corpus(self):
+        res = []
+        # (1) a multi-key Del on a cache cluster while one node rejects it: the node retries ITS keys a tick
+        # later; once with the fault lifted before the retry, once after (second retry 5 ticks later); each
+        # node in turn.  Every key was written on every server first, so the snapshots show per server
+        # exactly which keys were deleted.
+        keys = [{"inst": 0, "k": "demo/%d" % j} for j in range(10)]
+        sops = []
+        for srv in (0, 1, 2):
+            sops += [["populate"], ["fault", srv, 1], ["del", 0, list(range(10))], ["snap"], ["fault", srv, 0], ["tick"],
+                     ["snap"], ["tick"]]
+        sops += [["populate"], ["fault", 1, 1], ["del", 0, [0, 1, 2, 3, 4, 5]], ["del", 0, [6]], ["tick"], ["snap"],
+                 ["fault", 1, 0]] + [["tick"]] * 5 + [["snap"], ["del", 0, []], ["del", 0, [7, 7, 8]], ["snap"]]
+        res.append(self._script([20101, 20102, 20103],
+                                [{"kind": "cache", "nodes": [[0, 100], [1, 100], [2, 100]]}], keys, sops))
+        # (2) two cache clusters and a kv store over the same three servers, configured in different orders
+        # with the same weights (same rings), plus a kv store on a subset; every operation of both APIs once
+        keys = [{"inst": 0, "k": "c0:%d" % j} for j in range(6)] + [{"inst": 1, "k": "c1:%d" % j} for j in range(6)]
+        k2 = len(keys)
+        keys += self._kv_keys(2, "a", 2)
+        k3 = len(keys)
+        keys += self._kv_keys(3, "b", 1)
+        sops = []
+        for j, name in enumerate(CACHE_OPS + ["get", "take", "takex"]):
+            sops += [["op", 0, name, j % 6], ["op", 1, name, 6 + j % 6]]
+        for i, base, per in ((2, k2, 2), (3, k3, 1)):
+            for ti, t in enumerate("shlpez"):
+                for q, name in enumerate(KV_OPS[t]):
+                    sops.append(["op", i, name, base + ti * per + q % per])
+        sops += [["del", 0, [0, 1, 2, 3, 4, 5]], ["del", 1, [6, 7, 8, 9, 10, 11]], ["del", 2, list(range(k2, k3))],
+                 ["del", 3, [k3]], ["del", 3, []], ["tick"]]
+        res.append(self._script([20111, 20112, 20113],
+                                [{"kind": "cache", "nodes": [[0, 100], [1, 50], [2, 100]]},
+                                 {"kind": "cache", "nodes": [[2, 100], [0, 100], [1, 50]]},
+                                 {"kind": "kv", "nodes": [[1, 50], [2, 100], [0, 100]]},
+                                 {"kind": "kv", "nodes": [[2, 1], [1, 150]]}], keys, sops))
+        # (3) a one-node "cluster" (cache.New returns the node itself) beside a two-node one
+        keys = [{"inst": 0, "k": "one:%d" % j} for j in range(4)] + [{"inst": 1, "k": "two:%d" % j} for j in range(6)]
+        sops = [["op", 0, "set", 0], ["op", 0, "take", 1], ["fault", 1, 1], ["del", 0, [0, 1, 2]], ["del", 1, [4, 5, 6, 7, 8, 9]],
+                ["fault", 1, 0], ["tick"], ["op", 1, "get", 4], ["populate"], ["del", 0, [3]], ["del", 1, [4, 5]], ["snap"]]
+        res.append(self._script([20121, 20122],
+                                [{"kind": "cache", "nodes": [[1, 10]]}, {"kind": "cache", "nodes": [[0, 100], [1, 100]]}],
+                                keys, sops))
+        return res
+
+    def _gen_script(self, rng):
+        nsrv = rng.randint(2, 4)
+        if rng.random() < 0.15:
+            # a 4-digit and a 5-digit port whose virtual-node strings coincide ("...:2345"+"67" == "...:23456"+"7")
+            p4 = rng.randrange(2011, 2999)
+            ports = [p4, p4 * 10 + rng.randrange(10)] + rng.sample(range(20011, 29989), nsrv - 2)
+            rng.shuffle(ports)
+        else:
+            ports = rng.sample(range(20011, 29989), nsrv)
+        insts, skeys = [], []
+        for i in range(rng.choice([1, 2, 2, 3])):
+            kind = "cache" if (i == 0 and rng.random() < 0.8) or rng.random() < 0.5 else "kv"
+            k = rng.choice([1, 2, nsrv, nsrv, nsrv])
+            srv = rng.sample(range(nsrv), min(k, nsrv))
+            nodes = [[sv, rng.choice(CLUSTER_WEIGHTS)] for sv in srv]
+            if sum(max(w, 0) for _, w in nodes) <= 0:
+                nodes[0][1] = 100
+            insts.append({"kind": kind, "nodes": nodes})
+            tag = "%d/" % rng.randrange(10 ** 6)
+            if kind == "cache":
+                skeys += [{"inst": i, "k": "c%d:%s%d" % (i, tag, j)} for j in range(rng.randint(6, 12))]
+            else:
+                skeys += self._kv_keys(i, tag, rng.choice([1, 2]))
+        mine = lambda i: [q for q, k in enumerate(skeys) if k["inst"] == i]
+        fails = [0] * nsrv
+        sops = []
+        faulty = set()
+
+        def some_del(i, under_fault):
+            ks = mine(i)
+            r = rng.random()
+            if insts[i]["kind"] == "kv" and under_fault:
+                n = rng.randint(1, 2)
+            else:
+                n = 0 if r < 0.05 else 1 if r < 0.2 else rng.randint(2, len(ks))
+            sel = rng.sample(ks, min(n, len(ks)))
+            if sel and rng.random() < 0.1:
+                sel.append(sel[0])
+            return ["del", i, sel]
+
+        def single(i):
+            q = rng.choice(mine(i))
+            if insts[i]["kind"] == "cache":
+                return ["op", i, rng.choice(CACHE_OPS), q]
+            return ["op", i, rng.choice(KV_OPS[skeys[q]["k"][0]]), q]
+
+        for _ in range(rng.randint(2, 5)):
+            i = rng.randrange(len(insts))
+            if rng.random() < 0.45:
+                for _ in range(rng.randint(3, 10)):
+                    sops.append(some_del(i, False) if rng.random() < 0.25 else single(rng.randrange(len(insts))))
+                continue
+            # a Del under an injected fault, with the retries that follow
+            sv = rng.choice([n[0] for n in insts[i]["nodes"]])
+            d = some_del(i, True)
+            cost = max(1, len(d[2])) if insts[i]["kind"] == "kv" else 1
+            late = rng.random() < 0.35
+            if fails[sv] + cost + (1 if late else 0) > FAIL_BUDGET:
+                sops.append(d)
+                continue
+            fails[sv] += cost + (1 if late else 0)
+            if rng.random() < 0.8:
+                sops.append(["populate"])
+            sops += [["fault", sv, 1], d]
+            if rng.random() < 0.3 and fails[sv] < FAIL_BUDGET:
+                # another instance's Del meets the same outage
+                i2 = rng.randrange(len(insts))
+                d2 = some_del(i2, True)
+                c2 = max(1, len(d2[2])) if insts[i2]["kind"] == "kv" else 1
+                if fails[sv] + c2 <= FAIL_BUDGET:
+                    fails[sv] += c2
+                    sops.append(d2)
+            if rng.random() < 0.5:
+                sops.append(["snap"])
+            if late:
+                sops += [["tick"], ["fault", sv, 0]] + [["tick"]] * rng.choice([4, 5, 6]) + [["snap"]]
+            else:
+                sops += [["fault", sv, 0], ["tick"], ["snap"]]
+                if rng.random() < 0.3:
+                    sops.append(["tick"])
+        return self._script(ports, insts, skeys, sops)
 
     def _cluster(self, kind, weights, keys):
         return {"kind": kind, "weights": weights, "hash": "murmur", "mod": 0, "r": 0, "nodes": [], "ops": [],
@@ -200,7 +357,39 @@ class C15(Property):
             ids.setdefault(r, len(ids))
         return ids
 
+    def _coq_script(self, case, obs):
+        ids = self._ids(obs)
+        allh = set(int(a) for a, _ in obs["ph"])
+        for row in obs["vh"]:
+            allh.update(int(h) for h in row)
+        rank = {h: i for i, h in enumerate(sorted(allh))}
+        rows, seen = [], set()
+        for k, r in enumerate(obs["reprs"]):
+            if r in seen:
+                continue
+            seen.add(r)
+            rows.append("(%d, %s)" % (ids[r], clist(["%d" % rank[int(h)] for h in obs["vh"][k]])))
+        insts = clist(["(%s, %s)" % ("true" if it["kind"] == "cache" else "false",
+                                     clist(["OAddW (mkNode %d %d) %s" % (ids[obs["reprs"][sv]], sv, cz(w)) for sv, w in it["nodes"]]))
+                       for it in case["insts"]])
+        keys = clist(["(%d, (%d, %s))" % (k["inst"], rank[int(a)], b) for k, (a, b) in zip(case["skeys"], obs["ph"])])
+        ops = []
+        for o in case["sops"]:
+            if o[0] == "op":
+                ops.append("CDel %d []" % o[1] if o[2] == "isnf" else "CSingle %d %d" % (o[1], o[3]))
+            elif o[0] == "del":
+                ops.append("CDel %d %s" % (o[1], clist(["%d" % q for q in o[2]])))
+            elif o[0] == "fault":
+                ops.append("CFault %d %s" % (o[1], "true" if o[2] else "false"))
+            else:
+                ops.append({"tick": "CTick", "populate": "CPopulate", "snap": "CSnap"}[o[0]])
+        zl = lambda rows_: clist([clist([cz(x) for x in row]) for row in rows_])
+        return "UserCase (mkUser %s %s %s %s %s %s %s)" % (cz(obs["r"]), clist(rows), insts, keys, clist(ops),
+                                                          zl(obs.get("touch") or []), zl(obs.get("snap") or []))
+
     def coq_case(self, case, obs):
+        if case.get("kind") == "script":
+            return self._coq_script(case, obs)
         ids = self._ids(obs)
         # The algorithm only compares virtual-node hashes and key hashes with each other (<, ==), so the
         # 64-bit values are renumbered by rank (order- and equality-preserving) to keep Coq's binary
@@ -228,9 +417,9 @@ class C15(Property):
                 ops.append("ORemove %s" % node(o[1]))
         ps = clist(["(%d, %s)" % (rank[int(a)], b) for a, b in obs["ph"]])
         gets = clist([clist([cz(g) for g in row]) for row in obs["gets"]])
-        return "mkCase %s %s %s %s %s %s %s" % (cz(obs["r"]), clist(rows), clist(ops), ps, gets,
-                                                "true" if case.get("kind") else "false",
-                                                "true" if case.get("strict") else "false")
+        return "RingCase (mkCase %s %s %s %s %s %s %s)" % (cz(obs["r"]), clist(rows), clist(ops), ps, gets,
+                                                           "true" if case.get("kind") else "false",
+                                                           "true" if case.get("strict") else "false")
 
     # ---- known finding: collision-bucket-insertion-order ---------------------------------
     def _core_ok(self, case, obs):
@@ -315,7 +504,33 @@ class C15(Property):
                 hs += obs["vh"][k]
         return len(hs) == len(set(hs))
 
+    def shrink_candidates(self, case):
+        if case.get("kind") != "script":
+            return Property.shrink_candidates(self, case)
+        ops = case["sops"]
+        res, n = [], len(ops)
+        chunk = max(1, n // 2)
+        while chunk >= 1 and n > 1:
+            for i in range(0, n, chunk):
+                c = dict(case)
+                c["sops"] = ops[:i] + ops[i + chunk:]
+                if c["sops"]:
+                    res.append(c)
+            if chunk == 1:
+                break
+            chunk //= 2
+        # fewer keys in a multi-key Del
+        for i, o in enumerate(ops):
+            if o[0] == "del" and len(o[2]) > 2:
+                for q in range(len(o[2])):
+                    c = dict(case)
+                    c["sops"] = ops[:i] + [["del", o[1], o[2][:q] + o[2][q + 1:]]] + ops[i + 1:]
+                    res.append(c)
+        return res[:200]
+
     def nontrivial(self, case, obs):
+        if case.get("kind") == "script":
+            return len(set(t % 64 for row in obs.get("touch") or [] for t in row)) >= 2
         gets = obs["gets"]
         if case.get("kind"):
             return len(set(g for g in gets[0] if g >= 0)) >= 2
@@ -329,6 +544,32 @@ class C15(Property):
         return changed and two and readd
 
     def features(self, case, obs):
+        if case.get("kind") == "script":
+            fs = ["script", "script_servers=%d" % len(case["ports"]), "script_instances=%d" % len(case["insts"]),
+                  "collision_free" if self._cf(obs) else "collisions"]
+            fs += ["script_has_" + it["kind"] for it in case["insts"]]
+            if any(len(it["nodes"]) == 1 for it in case["insts"]):
+                fs.append("script_single_node_instance")
+            kinds = {}
+            for it in case["insts"]:
+                kinds.setdefault(tuple(sorted(map(tuple, it["nodes"]))), []).append(it)
+            if any(len(v) > 1 for v in kinds.values()):
+                fs.append("script_same_node_set_twice")
+            faulted = False
+            for o, row in zip(case["sops"], obs.get("touch") or []):
+                if o[0] == "op":
+                    fs.append("api:%s.%s" % (case["insts"][o[1]]["kind"], o[2]))
+                elif o[0] == "del":
+                    fs.append("api:%s.del%s" % (case["insts"][o[1]]["kind"], "N" if len(o[2]) > 1 else str(len(o[2]))))
+                    if faulted:
+                        fs.append("script_del_under_fault")
+                elif o[0] == "fault":
+                    faulted = bool(o[2]) or faulted and False
+                elif o[0] == "tick" and row:
+                    fs.append("script_retry_fired")
+                elif o[0] == "snap":
+                    fs.append("script_snapshot")
+            return sorted(set(fs))
         if case.get("kind"):
             return ["cluster=" + case["kind"], "cluster_nodes=%d" % len(case["weights"]),
                     "collision_free" if self._cf(obs) else "collisions"]
@@ -347,6 +588,10 @@ class C15(Property):
         return fs
 
     def describe_failure(self, case, obs):
+        if case.get("kind") == "script":
+            return ("cluster script: a command naming a key reached a server other than the one the instance's ring "
+                    "designates for that key (touches = key*64+server per step), a key of the operation reached no "
+                    "server, or a key disappeared from a server that does not own it (snapshots)")
         if case.get("kind"):
             return ("%s cluster: a key was read / written / deleted on a server other than the one the ring "
                     "designates (rows: Get, Set, multi-key Del; -3 = none or several servers)" % case["kind"])
